@@ -243,15 +243,44 @@ def _split_cases(out):
     return cases
 
 
-def run_stream(cmd, text, timeout, env=None):
+def run_stream(cmd, text, timeout, env=None, stall_s=None):
+    """run `cmd` on `text`; with `stall_s`, a process whose output has not grown for that long is killed
+    (rc -998, "[stalled]"): a hung implementation costs the stall window, not the whole chunk timeout"""
     t = time.time()
     e = dict(os.environ)
     e.setdefault("ASAN_OPTIONS", "detect_leaks=0:abort_on_error=0:allocator_may_return_null=1:max_allocation_size_mb=4096")
     e.setdefault("UBSAN_OPTIONS", "print_stacktrace=1")
     if env:
         e.update(env)
-    rc, out = sh(cmd, input=text, timeout=timeout, env=e)
-    return rc, out, time.time() - t
+    if stall_s is None:
+        rc, out = sh(cmd, input=text, timeout=timeout, env=e)
+        return rc, out, time.time() - t
+    import tempfile
+    with tempfile.TemporaryFile() as fi, tempfile.TemporaryFile() as fo:
+        fi.write(text.encode()); fi.flush(); fi.seek(0)
+        pr = subprocess.Popen(cmd, stdin=fi, stdout=fo, stderr=subprocess.STDOUT, env=e)
+        last_size, last_t, note = -1, time.time(), ""
+        while True:
+            try:
+                pr.wait(timeout=0.25)
+                break
+            except subprocess.TimeoutExpired:
+                pass
+            now = time.time()
+            size = os.fstat(fo.fileno()).st_size
+            if size != last_size:
+                last_size, last_t = size, now
+            if now - last_t > stall_s:
+                note = "\n[stalled]"
+            elif timeout and now - t > timeout:
+                note = "\n[timeout]"
+            if note:
+                pr.kill(); pr.wait()
+                break
+        fo.seek(0)
+        out = fo.read().decode(errors="replace")
+        rc = pr.returncode if not note else (-998 if "stalled" in note else -999)
+    return rc, out + note, time.time() - t
 
 
 def batch_text(cases, idxs):
@@ -279,7 +308,7 @@ def run_both(ctx, cases, exe, component, jobs=16, timeout=600, c_env=None):
             # a crash ends the process: record it for the last case begun and continue after it
             restarts = 0
             while todo:
-                rc, out, _ = run_stream([exe], batch_text(cases, todo), timeout, c_env)
+                rc, out, _ = run_stream([exe], batch_text(cases, todo), timeout, c_env, stall_s=getattr(ctx.p, "STALL_S", 120))
                 got = _split_cases(out)
                 for k, v in got.items():
                     res[("c", int(k))] = v
@@ -289,7 +318,7 @@ def run_both(ctx, cases, exe, component, jobs=16, timeout=600, c_env=None):
                 bad = started[-1] if started else todo[0]
                 res[("crash", bad)] = f"rc={rc}\n" + out[-3000:]
                 todo = todo[todo.index(bad) + 1:] if bad in todo else []
-                restarts += 1
+                restarts += 2 if rc == -998 else 1      # a hang is expensive: one more attempt after it, not two
                 if restarts >= 3:      # a tree that crashes on most cases: three witnesses per chunk are enough
                     break
         if component:
